@@ -116,6 +116,11 @@ class SK(object):
                 if it in ("D1", "D2"):
                     it = ("ITER", L if it == "D1" else Rk)
                 el = it[1] if isinstance(it, tuple) and it[0] == "ITER" else UNK
+                if isinstance(it, tuple) and it[0] == "PAIR":
+                    # iterating a literal tuple of pairs (directly or through a local bound to it): element kinds joined position-wise
+                    elems = [x for x in it[1:] if isinstance(x, tuple) and x[0] == "PAIR"]
+                    if elems and len(elems) == len(it) - 1 and all(len(x) == len(elems[0]) for x in elems):
+                        el = ("PAIR",) + tuple(_join(x[i] for x in elems) for i in range(1, len(elems[0])))
                 self.bind(gen.target, el, env2)
                 for c in gen.ifs:
                     self.kind(c, env2, loc_node)
